@@ -12,7 +12,7 @@ claimed = [c["property_id"] for c in man["checks"]]
 props = [json.loads(l) for l in (V / "properties.jsonl").read_text().splitlines() if l.strip()]
 
 def status():
-    rows = ["| id | claimed | Lean modules (Properties/…) | theorems audited | open statements | quick run (seed 0): evaluations / non-trivial | known findings | repaired defects |", "|---|---|---|---|---|---|---|---|"]
+    rows = ["| id | claimed | Lean modules (Properties/…) | theorems audited | open statements | latest run: evaluations / non-trivial (tier) | known findings | repaired defects |", "|---|---|---|---|---|---|---|---|"]
     for p in props:
         pid = p["id"]
         o = obl.get(pid, {})
@@ -47,9 +47,9 @@ tables = {"status": status(), "seeded": seeded()}
 p = V / "DESIGN.md"
 s = p.read_text()
 for k, t in tables.items():
-    pat = re.compile(rf"(<!-- BEGIN:{k} -->\n).*?(\n<!-- END:{k} -->)", re.S)
+    pat = re.compile(rf"(<!-- BEGIN:{k} -->\n).*?(<!-- END:{k} -->)", re.S)
     if pat.search(s):
-        s = pat.sub(lambda m: m.group(1) + t + m.group(2), s)
+        s = pat.sub(lambda m: m.group(1) + t + "\n" + m.group(2), s)
     else:
         print("marker missing:", k)
 p.write_text(s)
